@@ -104,7 +104,14 @@ func (t *ProcessorTask) Do(ctx context.Context, b *Batch) error {
 	recsOut := t.processor.Process(ctx, recsIn)
 
 	if len(recsOut) == 0 {
-		return cerrors.Errorf("processor didn't return any records")
+		// No result at all for a non-empty input cannot make progress: the
+		// same records would be handed to the processor again after a
+		// restart, with the same outcome. Deterministic plugin misbehaviour,
+		// so fatal (the stream engine treats a missing result the same way,
+		// and a processor that keeps returning a too short result ends in the
+		// fatal CodeRetryNotConverging) - a plain error would send the
+		// pipeline through recovery restarts forever.
+		return cerrors.FatalError(cerrors.Errorf("processor didn't return any records"))
 	}
 	t.metrics.Observe(len(recsOut), start)
 
